@@ -179,6 +179,25 @@ def run(tier, seed):
             vecs, complete = P.seed_vectors(rng, k, exh, nsample) if k else ([None], True)
             for bv in vecs:
                 one(ctx, A, p, klass, eps, suc, box, bv)
+    # threshold-adjacent inputs inside the box: the capitalised, rescaled polynomial suc*(p + eps/4 at both ends) has an
+    # inner conjugate root pair of 1 - F F~ with imaginary part 1e-8..1e-6 (constructed by bisection, see pipeline.near_collision)
+    for n in ([2, 3, 5, 7, 9, 12] if tier == "quick" else list(range(2, 13)) * 3):
+        nc = P.near_collision(rng, n)
+        if nc is None:
+            ctx.count("near-collision:not-constructed")
+            continue
+        Fc, im = nc
+        eps = float(10 ** rng.uniform(-5, -2)); suc = float(1 - 10 ** rng.uniform(-5, -2))
+        p = [x / suc for x in Fc]
+        p[0] -= eps / 4
+        p[-1] -= eps / 4
+        chk = np.array(p); chk[0] += eps / 4; chk[-1] += eps / 4
+        nreal, im2 = P.inner_root_profile(list(suc * chk))
+        box = bool(np.abs(p).sum() <= 0.9)
+        ctx.count("near-collision" + ("" if (im2 is not None and 1e-8 < im2 < 1e-6) else ":window-lost-in-rounding"))
+        vecs, complete = P.seed_vectors(rng, n, 3, 4)
+        for bv in vecs:
+            one(ctx, A, p, "near-collision", eps, suc, box, bv)
     ctx.assumptions = ["that the floating-point pipeline returns inside the stated box is explored (forced seeds), not proved"]
     return ctx.finish(
         rule="real Laurent coefficient vectors of length n+1, n in 1..12 (plus 16..58), symmetric or not, 1-norm in (0,1.5], eps in [1e-5,1e-2], "
